@@ -602,19 +602,7 @@ func c10Merge(l, r *gedcom.Document, via string, minSim float64) (out *gedcom.Do
 		}
 		return doc, nil
 	}
-	options := gedcom.NewIndividualNodesCompareOptions()
-	if i := strings.Index(via, "-jobs="); i >= 0 {
-		// Jobs is an option like the others: the result must not depend on it
-		options.Jobs, _ = strconv.Atoi(via[i+len("-jobs="):])
-	}
-	if minSim < 0 { // "always trust the pointer"
-		options.SimilarityOptions.PreferPointerAbove = 0
-	}
-	if minSim > 0 {
-		options.SimilarityOptions.MinimumWeightedSimilarity = minSim
-		options.SimilarityOptions.MinimumSimilarity = minSim
-		options.SimilarityOptions.PreferPointerAbove = minSim
-	}
+	options := c10Options(via, minSim)
 	return gedcom.MergeDocumentsAndIndividuals(l, r, gedcom.EqualityMergeFunction, options)
 }
 
@@ -1064,6 +1052,24 @@ func c10RunDocs(c *Ctx, ld, rd *gedcom.Document, l, r *c10ADoc, shape, via strin
 		}
 	}
 	req2.WriteString(" " + lForest + " " + rForest)
+	// (T3) end to end: the matching of the real Compare against C11's model computing it from the
+	// persons and the similarity scores, fed into the merge model (accounting_end_to_end)
+	if composed := c10Compose(c, ld, rd, via, minSim); composed != nil {
+		var up []string
+		for _, m := range ms {
+			a, b := "_", "_"
+			if m.L >= 0 {
+				a = fmt.Sprint(lp[first(l.Indis[m.L].Marker)])
+			}
+			if m.R >= 0 {
+				b = fmt.Sprint(rp[first(r.Indis[m.R].Marker)])
+			}
+			up = append(up, a+"-"+b)
+		}
+		sort.Strings(up)
+		c.Tie(composed.head+" "+lForest+" "+rForest, c10ComposedObs(composed, strings.Join(up, " "), out))
+		c.Count("composed:tied")
+	}
 	c.Tie(req2.String(), "ok legal="+bit(re.String() == text)+" inputs=1 "+encForest(abstractNodes(out.Nodes())))
 
 	switch {
@@ -1101,6 +1107,8 @@ func c10HasRef(refs [][2]string, rf [2]string) bool {
 
 func init() {
 	runners["C10"] = func(c *Ctx) {
+		c.Compare = c10cmp
+		c10note = func(s string) { c.Dist[s]++ }
 		c.Rule = "pairs of referentially closed family-graph documents (0..25 people each): base + edited copy with the same / renumbered / reshuffled pointers, dropped and added people, changed facts, shuffled records; disjoint worlds with disjoint or clashing pointers; empty documents; inputs prepared through the API (DeleteNode / SetNodes / AddIndividual / AddFamily / AddChild) and chains of 2-3 merges whose results are edited and merged again; renumbered copies with shared _UIDs, swapped pointers and namesakes; unchanged copies of fully documented families with only non-vital facts edited (weighted similarity 1.0); default, strict (0.95), lenient (0.4) and always-trust-the-pointer (PreferPointerAbove 0) thresholds; library call and query function; individuals with two or three unique identifiers (_UID several times, _UID with _FSFTID / _FID) that lead to different individuals of the other document, to the same one or to nobody, carrier on either side; a document of n individuals (pointer, identifier, marker) merged with its re-marked copy for n in 999, 1000, 1001, 2000, 2001, 2002, 2100 (thorough: also 4100, every variant), all matched for certain by _UID or by pointer, through the library (Jobs 0, 2, 4, 16) and q, under a 25 s watchdog with the accounting oracle on the result; distinct = (shape, merged, unmerged, any broken reference)"
 		c.Notes = append(c.Notes,
 			"the matching is read off unique marker lines in the output; who is matched with whom is C11's property, C10 checks that everyone is accounted for whatever the matching",
